@@ -319,6 +319,11 @@ def build_leaf(rec):
 
 def tree_recipe(rng, depth=3, kinds=None, well_typed=False, null_p=0.1, fns=None):
     """('leaf', rec) | ('null',) | (op, l, r)"""
+    if depth >= 1 and rng.random() < 0.04:
+        # the SAME condition object as both operands (c & c, c | c, c ^ c): what the combination means does not depend
+        # on whether its operands are one object or two equal ones
+        sub = tree_recipe(rng, depth - 1, kinds, well_typed, null_p, fns)
+        return (rng.choice(["and", "or", "xor", "xor"]), sub, sub)
     if depth >= 2 and rng.random() < 0.04:
         # a CHAIN of 4-6 operands of one operator (left- or right-nested), as `a & b & c & d` or a long spec list gives
         op = rng.choice(["and", "or", "xor"])
@@ -337,15 +342,29 @@ def tree_recipe(rng, depth=3, kinds=None, well_typed=False, null_p=0.1, fns=None
             tree_recipe(rng, depth - 1, kinds, well_typed, null_p, fns))
 
 
+MEMO = [None]      # when set to a dict: one recipe OBJECT builds one condition object (shared between parts / rules / variants)
+
+
 def build_tree(t, operators=False):
     """operators=True: combinations are built with the python operators & | ^ instead of the classes"""
+    if MEMO[0] is not None and t[0] != "null":
+        k = (id(t), operators)
+        if k not in MEMO[0]:
+            MEMO[0][k] = (t, _build_tree(t, operators))       # (the recipe is kept alive with its object)
+        return MEMO[0][k][1]
+    return _build_tree(t, operators)
+
+
+def _build_tree(t, operators=False):
     import valida.conditions as c
 
     if t[0] == "null":
         return c.NullCondition()
     if t[0] == "leaf":
         return build_leaf(t[1])
-    l, r = build_tree(t[1], operators), build_tree(t[2], operators)
+    l = build_tree(t[1], operators)
+    # (op, X, X) with the very same recipe object X twice: ONE condition object used as both operands (`c ^ c`)
+    r = l if t[2] is t[1] else build_tree(t[2], operators)
     if operators:
         return (l & r) if t[0] == "and" else (l | r) if t[0] == "or" else (l ^ r)
     return {"and": c.ConditionAnd, "or": c.ConditionOr, "xor": c.ConditionXor}[t[0]](l, r)
